@@ -316,6 +316,23 @@ fn gc_sweep_blocked_mid_table() {
 #[cfg(kani)]
 #[kani::proof]
 #[kani::unwind(22)]
+fn gc_sweep_rest_with_huge_work_unit() {
+  // "sweep whatever is left": a work unit of usize::MAX from the middle of the table finishes the pass
+  // (sweep_index + work_unit must not overflow)
+  let kinds = [Kind::Temp(false), Kind::Temp(false), Kind::Temp(true)];
+  let mut heap = mk_heap(&kinds, 1, false);
+  heap.sweep(usize::MAX);
+  assert!(kind_of(&heap, 0) == Kind::Temp(false)); // before the resume point: untouched
+  assert!(kind_of(&heap, 1) == Kind::Dead);
+  assert!(kind_of(&heap, 2) == Kind::Temp(false)); // marked: survives, mark cleared
+  assert!(heap.sweep_index == 0);
+  kani::cover!(true);
+  std::mem::forget(heap);
+}
+
+#[cfg(kani)]
+#[kani::proof]
+#[kani::unwind(22)]
 fn gc_sweep_resumes_at_index() {
   // second slice of an incremental sweep: starts where the previous one stopped
   let kinds = [Kind::Temp(false), Kind::Temp(false)];
